@@ -55,6 +55,9 @@ POOL = [
     ("shared-exception", DOC_E, None, None, {("a", "a"): "raise_shared"}, 1, "scn"),
     ("shared-exception-other-field", DOC_E, None, None, {("color",): "raise_shared"}, 2, "scn"),
     ("enriching-its-own-library-error", DOC_E, None, None, {("color",): "raise_te_enriched"}, 1, "scn"),
+    # the same long-lived error constant raised by an argument directive (argument coercion), at two different document positions
+    ("shared-exception-from-argument-directive", "{ two(a: 1313) num }", None, None, {}, 1, "scn"),
+    ("shared-exception-from-argument-directive-elsewhere", "{ num color\n  x: two(b: 1313) }", None, None, {}, 2, "scn"),
     ("shared-exceptions-inside-a-multipleexception", DOC_E, None, None, {("a", "a"): "raise_multi_shared"}, 1, "scn"),
     ("shared-exceptions-inside-a-multipleexception-other-field", DOC_E, None, None, {("color",): "raise_multi_shared"}, 2, "scn"),
     # an abstract type spread inside a narrower abstract type (valid: the two overlap) next to a request whose runtime types lie
